@@ -25,7 +25,7 @@ RULE = ("(template, substrate, direction, strategy, hydrogen mode) with template
         "hand-made rule, or a synthetic ITS graph planted on a random host; non-trivial = at least one glued result and a "
         "template with >= 2 changed bonds; distinct = distinct (template, substrate, configuration)")
 EXHAUSTIVE = {"quick": False, "thorough": False}
-EXPLANATION = ("38 theorems (coq/props/C03.v) about the Gallina model of SynReactor._glue_graph/_node_glue, _invert_template, _explicit_h, "
+EXPLANATION = ("39 theorems (coq/props/C03.v) about the Gallina model of SynReactor._glue_graph/_node_glue, _invert_template, _explicit_h, "
                "h_to_explicit and SynRule.__init__ (implicit-template mode; default mode for templates without explicit H atoms): for every host, rule and valid match the reactant side of the glued ITS "
                "(on its_decompose, what _to_smarts serialises) is the substrate; element counts incl. hydrogen and total charge agree on both "
                "sides for a balanced rule (and differ by exactly the rule's imbalance otherwise); changed bonds = image of the rule's bonds with "
@@ -60,8 +60,8 @@ TESTED_NOT_PROVED = ["serialisation half: _to_smarts / graph_to_smi (RDKit) — 
                      "that the rule is the template minus some explicit H atoms with all remaining atoms (up to hydrogen counts) and all bonds among them kept "
                      "(C03_synrule_default_skeleton) and that a kept atom's hydrogen count on a side = number of that side's bonds to the removed atoms "
                      "(C03_synrule_default_counts); for templates with the same element on both sides of every atom WHICH atoms are removed is proved "
-                     "exactly (C03_synrule_default_exact); the completeness direction of the h_pairs (every stripped shared hydrogen hands its id to "
-                     "all its heavy neighbours) is compared on every case (rc / left / right), not proved. Fully proved: implicit-template mode (C03_synrule_implicit) and default mode without "
+                     "exactly (C03_synrule_default_exact) and the pair ids in both directions (C03_default_pair_ids, C03_default_pair_ids_complete); "
+                     "templates whose atoms change element, or that carry h_pairs of their own, are covered by the partial theorems + correspondence only. Fully proved: implicit-template mode (C03_synrule_implicit) and default mode without "
                      "explicit H (C03_synrule_default_noH)",
                      "re-matching of the explicit-hydrogen pattern (_get_explicit_map -> VF2): every re-match is checked by match_okb / match_rcb in the "
                      "correspondence, not proved valid or complete (premise of C03_explicit_path)",
@@ -893,7 +893,7 @@ def gen_cases(tier, rng):
     return prepare_all(cases)
 
 
-LEVEL_TEXT = ("Machine-checked proof (Coq, 38 theorems, all closed under the global context) over an executable model of gluing a rule onto a "
+LEVEL_TEXT = ("Machine-checked proof (Coq, 39 theorems, all closed under the global context) over an executable model of gluing a rule onto a "
               "substrate along a match (SynReactor._glue_graph/_node_glue), _invert_template, _explicit_h, h_to_explicit and SynRule.__init__ "
               "(implicit-template mode; default mode for templates without explicit hydrogen atoms): for EVERY substrate graph, rule graph and valid match (boolean hypotheses wf_hostb, wf_rcb, match_rcb) "
               "(a) the reactant molecule graph of the glued ITS is the substrate (same atoms in the same order, same bonds), (b) every element "
